@@ -80,6 +80,37 @@ pub fn pool(rng: &mut Rng, n: usize) -> Vec<TV> {
         TV::Record(vec![("a".into(), TV::Num(1.0)), ("b".into(), TV::Num(3.0))]),
         TV::Record(vec![("a".into(), TV::Num(1.0)), ("c".into(), TV::Num(2.0))]),
     ];
+    // systematic near-misses of every record / list seen so far: renamed key (same size,
+    // different key set), a value replaced by null, both; an element replaced by null
+    let base = p.clone();
+    for v in base.iter() {
+        match v {
+            TV::Record(r) if !r.is_empty() => {
+                let mut r1 = r.clone();
+                r1[0].0 = format!("{}_", r1[0].0);
+                p.push(TV::Record(r1.clone()));
+                let mut r2 = r.clone();
+                r2[0].1 = TV::Null;
+                p.push(TV::Record(r2));
+                r1[0].1 = TV::Null;
+                p.push(TV::Record(r1));
+            }
+            TV::List(l) if !l.is_empty() => {
+                let mut l1 = l.clone();
+                let k = l1.len() - 1;
+                l1[k] = TV::Null;
+                p.push(TV::List(l1));
+            }
+            _ => {}
+        }
+    }
+    p.push(TV::Record(vec![("a".into(), TV::Null)]));
+    p.push(TV::Record(vec![("b".into(), TV::Num(1.0))]));
+    p.push(TV::Record(vec![("a".into(), TV::Null), ("b".into(), TV::Num(1.0))]));
+    p.push(TV::Record(vec![("b".into(), TV::Num(1.0)), ("c".into(), TV::Null)]));
+    p.push(TV::List(vec![TV::Null, TV::Num(1.0)]));
+    p.push(TV::List(vec![TV::Num(-0.0), TV::Num(5.0)]));
+    p.push(TV::List(vec![TV::Num(0.0), TV::Num(4.0)]));
     while p.len() < n {
         let v = if rng.chance(1, 2) && !p.is_empty() {
             let base = rng.pick(&p).clone();
@@ -97,7 +128,7 @@ pub fn pool(rng: &mut Rng, n: usize) -> Vec<TV> {
 pub fn run(ctx: &Ctx, rep: &mut Report) {
     let mut rng = Rng::new(ctx.seed);
     let mut model = Model::spawn(&ctx.model_path);
-    let n_pool = ctx.budget(48, 110);
+    let n_pool = ctx.budget(90, 160);
     let p = pool(&mut rng, n_pool);
 
     // ---- pairs: laws + correspondence ------------------------------------------------
@@ -204,6 +235,29 @@ pub fn run(ctx: &Ctx, rep: &mut Report) {
             if (e == R::T) != (i_eq == "t") {
                 rep.finding("oracle", "operator-vs-equals", &desc, "", "c12.operator-vs-equals");
             }
+        }
+    }
+    // the same variable on both sides must behave like two equal copies of its value
+    let self_ops = ["a .== a", "a .!= a", "a .< a", "a .<= a", "a .> a", "a .>= a",
+                    "ugt(a, a)", "ult(a, a)", "ugte(a, a)", "ulte(a, a)"];
+    for i in 0..n {
+        let b1 = bind(&[("a", &p[i])]);
+        let b2 = bind(&[("a", &p[i]), ("b", &p[i])]);
+        let desc = format!("a = {}", p[i].to_source());
+        rep.case(&format!("self {}", desc), true);
+        for (k, s1) in self_ops.iter().enumerate() {
+            let r1 = ev(&b1, s1);
+            let r2 = ev(&b2, ops[k]);
+            if r1 != r2 {
+                rep.finding("oracle", "same-variable-differs", &format!("{} ; {}", desc, s1),
+                    &format!("{} gives {:?} but with an equal copy b: {} gives {:?}", s1, r1, ops[k], r2), "c12.same-variable-differs");
+            }
+        }
+        // also inside containers that share the cell
+        let r1 = ev(&b1, "[a] .<= [a]");
+        let r2 = ev(&b2, "[a] .<= [b]");
+        if r1 != r2 {
+            rep.finding("oracle", "same-variable-differs", &format!("{} ; [a] .<= [a]", desc), &format!("{:?} vs {:?}", r1, r2), "c12.same-variable-differs");
         }
     }
     // reflexivity, symmetry
